@@ -9,6 +9,7 @@ snapshotted before and after the call; the outputs are numbered in the same spac
 input object", "is a new object" and "shares a node object" are facts about indices.  The choices
 the operator made are inferred from what the configured verifier was asked (a recording rule of
 ours), from what our own operator agent / crossover callables were asked, and from the outputs."""
+import hashlib
 import itertools
 import os
 import random
@@ -17,7 +18,8 @@ from copy import deepcopy
 
 import numpy as np
 
-from common import c_bool, c_list, c_nat, c_opt, c_str
+from common import c_bool, c_opt
+from common import c_str as _c_str
 
 from golem.core.adapter import DirectAdapter, register_native
 from golem.core.dag.graph_verifier import GraphVerifier
@@ -37,6 +39,43 @@ from golem.core.optimisers.opt_node_factory import DefaultOptNodeFactory
 from golem.core.optimisers.fitness import SingleObjFitness
 
 REQ = ['Evo.Variation']
+# the case files open nat_scope / string_scope, so literals need no scope delimiters (much cheaper to elaborate)
+CASE_TY = {'mutation': 'config * list (list cnode * bool) * list (list cnode) * list mchoice * observation',
+           'crossover': 'config * list (list cnode * bool) * list (list (list cnode)) * list xchoice * observation'}
+
+
+NCONST = 300
+_STRS = {}          # string constants used by the terms printed so far: name -> text
+
+
+def c_nat(n):
+    """numbers below NCONST are printed as constants n<k> defined in the preamble, strings as constants named by a
+    hash of their text: coqc elaborates identifiers several times faster than numeral / string notations"""
+    assert isinstance(n, int) and 0 <= n < 100000, n
+    return 'n%d' % n if n < NCONST else str(n)
+
+
+def preamble(strs):
+    out = ['Local Open Scope nat_scope.']
+    out += ['Definition n%d : nat := %d.' % (k, k) for k in range(NCONST)]
+    out += ['Definition %s : string := %s.' % (name, _c_str(text)) for name, text in sorted(strs.items())]
+    return '\n'.join(out)
+
+
+def c_list(items, ty=None):
+    """explicit cons / nil: the [ ; ] notation costs coqc ~20x more time to elaborate on large terms"""
+    out = '(@nil %s)' % ty if ty else 'nil'
+    for x in reversed(list(items)):
+        out = '(cons %s %s)' % (x, out)
+    return out
+
+
+def c_str(x):
+    _c_str(x)       # (checks that the text is printable)
+    name = 's_' + hashlib.sha1(x.encode()).hexdigest()[:12]
+    _STRS[name] = x
+    return name
+
 NODE_TYPES = ['a', 'b', 'c', 'd']
 MUT_TYPES = [m.name for m in MutationTypesEnum]          # the 10 built-in types
 CROSS_TYPES = [c.name for c in CrossoverTypesEnum]       # the 7 built-in types
@@ -325,7 +364,9 @@ def make_env(cfg):
     node_factory = DefaultOptNodeFactory(NODE_TYPES)
     plain = GraphVerifier(rules, adapter)
     gg = GraphGenerationParams(adapter=adapter, rules_for_constraint=[rec.rule], node_factory=node_factory,
-                               random_graph_factory=RandomGrowthGraphFactory(plain, node_factory))
+                               random_graph_factory=RandomGrowthGraphFactory(
+                                   GraphVerifier(RULESETS['default'], adapter) if cfg['rules'] == 'reject_all' else plain,
+                                   node_factory))
     req = GraphRequirements(max_depth=cfg['max_depth'], max_arity=cfg['max_arity'])
     agent = None
     if cfg['op'] == 'mutation':
@@ -462,8 +503,27 @@ def c_ind(ind, po_shift=0):
 def c_store(st, ctr):
     return '(mk_store (mk_mem %s %s) %s %s)' % (
         c_list([c_node(x) for x in st['nodes']], 'node'),
-        c_list([c_list([c_nat(r) for r in g], 'nat') for g in st['graphs']], 'list nat'),
+        c_list([c_list([c_nat(r) for r in g], 'nat') for g in st['graphs']], '(list nat)'),
         c_list([c_ind(x) for x in st['inds']], 'indiv'), c_nat(ctr))
+
+
+def c_delta(before, after):
+    def changed(key, pr, ty):
+        b, a = before[key], after[key]
+        return c_list(['(%s, %s)' % (c_nat(i), pr(a[i])) for i in range(len(b)) if a[i] != b[i]], '(nat * %s)%%type' % ty)
+    c_g = lambda g: c_list([c_nat(r) for r in g], 'nat')
+    return '(mk_delta %s %s %s %s %s %s)' % (
+        changed('nodes', c_node, 'node'), changed('graphs', c_g, '(list nat)'), changed('inds', c_ind, 'indiv'),
+        c_list([c_node(x) for x in after['nodes'][len(before['nodes']):]], 'node'),
+        c_list([c_g(x) for x in after['graphs'][len(before['graphs']):]], '(list nat)'),
+        c_list([c_ind(x) for x in after['inds'][len(before['inds']):]], 'indiv'))
+
+
+def make_term(pc):
+    obs = '(obs_of %s %s %s %s %s %s)' % (c_store(pc['before'], pc['ctr']), c_delta(pc['before'], pc['after']),
+                                           c_list([c_nat(x) for x in pc['pop']], 'nat'), c_result(pc['res']),
+                                           c_list([c_bool(v) for v in pc['verdicts']], 'bool'), pc['types_obs'])
+    return '(%s, %s, %s, %s, %s)' % (pc['P'], pc['vt'], pc['ft'], pc['cs'], obs)
 
 
 def c_content(c, uidnum):
@@ -660,6 +720,7 @@ def infer_crossover(pairs, outs, new_info, calls, max_attempts, drawn, table, sa
 def run_case(spec):
     """runs one operator call; returns a dict with the Coq term and the facts for the evidence"""
     cfg = spec['cfg']
+    _STRS.clear()
     pop = make_population(spec)
     op, rec, plain, table, agent, types = make_env(cfg)
     del _XLOG[:]
@@ -711,9 +772,9 @@ def run_case(spec):
         if key in vt and vt[key][1] != v:
             facts['verifier_nondeterministic'] = True
         vt.setdefault(key, (c, v))
-    vt_coq = c_list(['(%s, %s)' % (c_content(c, uidnum), c_bool(v)) for c, v in vt.values()], 'list cnode * bool')
+    vt_coq = c_list(['(%s, %s)' % (c_content(c, uidnum), c_bool(v)) for c, v in vt.values()], '(list cnode * bool)%type')
     P = '(mk_config %s %s)' % (c_nat(max_attempts), c_list(['(%s, %s)' % (c_str(nm), c_bool(nn)) for nm, nn in table],
-                                                           'string * bool'))
+                                                           '(string * bool)%type'))
     choice_ok = True
     if cfg['op'] == 'mutation':
         if agent is not None:
@@ -743,9 +804,9 @@ def run_case(spec):
                 atts.append([len(ft)])
                 ft.append(c)
             cs.append('(mk_mchoice %s %s %s)' % (c_nat(t), c_bool(s['applied']),
-                                                 c_list([c_list([c_nat(x) for x in a], 'nat') for a in atts], 'list nat')))
-        ft_coq = c_list([c_content(c, uidnum) for c in ft], 'list cnode')
-        types_obs = c_list([c_opt(d, c_nat, 'nat') for d in drawn], 'option nat')
+                                                 c_list([c_list([c_nat(x) for x in a], 'nat') for a in atts], '(list nat)')))
+        ft_coq = c_list([c_content(c, uidnum) for c in ft], '(list cnode)')
+        types_obs = c_list([c_opt(d, c_nat, 'nat') for d in drawn], '(option nat)')
         n_applied = sum(1 for s in sol if s['applied'])
         n_failed = sum(1 for s in sol if s['applied'] and not (s['calls'] and s['calls'][-1][1]))
     else:
@@ -787,14 +848,14 @@ def run_case(spec):
                 atts.append(len(ft))
                 ft.append([a[0][0], a[1][0] if len(a) > 1 else []])
             cs.append('(mk_xchoice %s %s %s)' % (c_nat(t), c_bool(s['applied']), c_list([c_nat(x) for x in atts], 'nat')))
-        ft_coq = c_list([c_list([c_content(c, uidnum) for c in pair], 'list cnode') for pair in ft], 'list (list cnode)')
-        types_obs = c_list([c_opt(d, c_nat, 'nat') for d in drawn], 'option nat')
+        ft_coq = c_list([c_list([c_content(c, uidnum) for c in pair], '(list cnode)') for pair in ft], '(list (list cnode))')
+        types_obs = c_list([c_opt(d, c_nat, 'nat') for d in drawn], '(option nat)')
         n_applied = sum(1 for s in sol if s['applied'])
         n_failed = sum(1 for s in sol if s['applied'] and not (s['atts'] and len(s['atts'][-1]) == 2 and s['atts'][-1][1][1]))
-    obs = '(mk_obs %s %s %s %s %s %s)' % (c_store(before, ctr), c_store(after, ctr),
-                                           c_list([c_nat(x) for x in pop_irefs], 'nat'), c_result(res),
-                                           c_list([c_bool(v) for v in verdicts], 'bool'), types_obs)
-    term = '(%s, %s, %s, %s, %s)' % (P, vt_coq, ft_coq, c_list(cs, 'mchoice' if cfg['op'] == 'mutation' else 'xchoice'), obs)
+    pieces = {'P': P, 'vt': vt_coq, 'ft': ft_coq, 'cs': c_list(cs, 'mchoice' if cfg['op'] == 'mutation' else 'xchoice'),
+              'before': before, 'after': after, 'ctr': ctr, 'pop': pop_irefs, 'res': list(res), 'verdicts': verdicts,
+              'types_obs': types_obs}
+    term = make_term(pieces)
     shared_uids = len({n[0] for n in before['nodes']}) < len(before['nodes'])
     facts.update({'choice_ok': choice_ok, 'n_applied': n_applied, 'n_failed': n_failed,
                   'max_nodes': max([len(g) for g in before['graphs']] + [0]),
@@ -803,7 +864,7 @@ def run_case(spec):
                   'dropped': (len(pop) - len(out_irefs)) if cfg['op'] == 'mutation' and raised is None else 0})
     detail = {'before': before, 'after': after, 'pop': pop_irefs, 'result': list(res), 'verdicts': verdicts,
               'n_verifier_calls': len(calls)}
-    return {'term': term, 'facts': facts, 'detail': detail}
+    return {'term': term, 'facts': facts, 'detail': detail, 'pieces': pieces, 'strs': dict(_STRS)}
 
 
 def run_case_safe(spec):
@@ -944,7 +1005,11 @@ def evaluate(ctx, results, group_prefix=''):
         fn = ('fun c => match c with (P, vt, ft, cs, o) => [agree_mut P vt ft cs o; holds_mut P o] end'
               if opname == 'mutation' else
               'fun c => match c with (P, vt, ft, cs, o) => [agree_cross P vt ft cs o; holds_cross P o] end')
-        out = ctx.coq_cases(group, REQ, fn, [x['term'] for x in rs], 2, shard=150)
+        strs = {}
+        for x in rs:
+            strs.update(x['strs'])
+        out = ctx.coq_cases(group, REQ, fn, [x['term'] for x in rs], 2, shard=250, case_ty=CASE_TY[opname],
+                            preamble=preamble(strs))
         for x, (ag, ho) in zip(rs, out):
             f = x['facts']
             spec = x['spec']
@@ -1037,25 +1102,28 @@ def run(ctx):
 
 def plant_canaries(ctx, by_op):
     """deliberately wrong observations that Coq must flag"""
-    import re
     for opname, fnname in (('mutation', 'mut'), ('crossover', 'cross')):
         rs = [x for x in by_op.get(opname, []) if x['facts']['n_new'] > 0 and not x['facts']['raised']]
         if not rs:
             continue
         x = rs[0]
-        d = deepcopy(x['detail'])
-        # canary 1: a parent node lost its first... gets another label after the call (parent modified)
-        term = x['term']
-        b = d['before']
-        lbl = c_str(b['nodes'][0][1])
-        # the after-store is the second mk_store of the observation: relabel node 0 there
-        parts = term.rsplit('(mk_store', 1)
-        wrong = parts[0] + '(mk_store' + parts[1].replace('(mk_node %s %s' % (c_nat(b['nodes'][0][0]), lbl),
-                                                           '(mk_node %s %s' % (c_nat(b['nodes'][0][0]), c_str('CANARY')), 1)
         fn = ('fun c => match c with (P, vt, ft, cs, o) => [agree_%s P vt ft cs o; holds_%s P o] end' % (fnname, fnname))
-        ctx.canaries += 1
-        out = ctx.coq_cases('canary', REQ, fn, [wrong], 2)
-        if wrong != term and out[0][1] is False:
+        # canary A: a parent's node carries another name after the call (must break holds_b)
+        pa = deepcopy(x['pieces'])
+        u, l, p, ps = pa['after']['nodes'][0]
+        pa['after']['nodes'][0] = (u, 'CANARY', p, ps)
+        # canary B: the operator recorded in a new individual names another type (must break agree and holds_b)
+        pb = deepcopy(x['pieces'])
+        k = next(i for i in range(len(pb['before']['inds']), len(pb['after']['inds'])) if pb['after']['inds'][i][2] is not None)
+        iu, g, po, f = pb['after']['inds'][k]
+        pb['after']['inds'][k] = (iu, g, (po[0], po[1], ['canary'], po[3]), f)
+        ctx.canaries += 2
+        _STRS.clear()
+        terms = [make_term(pa), make_term(pb)]
+        out = ctx.coq_cases('canary', REQ, fn, terms, 2, case_ty=CASE_TY[opname], preamble=preamble(dict(x['strs'], **_STRS)))
+        if out[0][1] is False:
+            ctx.canaries_caught += 1
+        if out[1] == (False, False):
             ctx.canaries_caught += 1
 
 
